@@ -220,6 +220,9 @@ def gen(rng, nrng, tier):
                 continue
             order = [None, n - 1, int(nrng.integers(1, n)), 1][i % 4]
             o = n - 1 if order is None else order
+            if (i // 4) % 3 == 1:
+                # the recursion is homogeneous in r: a positive-definite sequence stays one at any amplitude
+                r = r * [2.0 ** -80, 2.0 ** -60, 2.0 ** 40, 2.0 ** -100, 2.0 ** 70][(i // 12) % 5]
             yield ("lev", {"r": r, "order": order, "allow": bool(i % 2), "cls": "pd", "q": int(nrng.integers(1, o + 1))})
         else:
             # clearly indefinite: perturb a PD sequence so that some stage error is <= -1e-3 r0
